@@ -383,6 +383,12 @@ psRes_t psPemCertBufToList(psPool_t *pool,
         {
             n++;
             start += l;
+            if (end < start)
+            {
+                /* "-----END" overlaps the header line: no body. */
+                psFreeList(front, pool);
+                return PS_PARSE_FAIL;
+            }
             if (current == NULL)
             {
                 current = psMalloc(pool, sizeof(psList_t));
